@@ -710,6 +710,19 @@ func condDependsOnRestoredState(p *Program, fn *ssa.Function, cond ssa.Value) bo
 			if cc.IsInvoke() && walk(cc.Value, depth+1) {
 				return true
 			}
+			// a helper of the package that receives the restored object and can
+			// fail: the consistency test extracted into a function
+			if sc := cc.StaticCallee(); sc != nil && p.owns(sc) && len(errorReturns(sc)) > 0 {
+				if rd, wr := hasStreamParam(sc.Signature); !rd && !wr {
+					for _, a := range cc.Args {
+						if n := namedOf(a.Type()); n != nil && n.Obj().Pkg() == p.Types {
+							if _, isStruct := n.Underlying().(*types.Struct); isStruct {
+								return true
+							}
+						}
+					}
+				}
+			}
 			for _, a := range cc.Args {
 				if walk(a, depth+1) {
 					return true
